@@ -138,7 +138,7 @@ REGISTRY = {
         "tiers": {
             "quick": {"workers": 8, "n_fmt": 2400, "java_max_per_worker": 6000},
             "thorough": {"workers": 16, "n_fmt": 200000,
-                         "java_max_per_worker": 25000},
+                         "java_max_per_worker": 12000},
         },
     },
     "C15": {
